@@ -11,7 +11,8 @@ import selftest
 EXTRA = {'C01-A': ['C03'], 'C01-B': ['C08'], 'C02-A': ['C14', 'C10'], 'C02-B': ['C05', 'C04'], 'C03-B': ['C13'], 'C04-A': ['C05', 'C07'], 'C05-A': ['C18', 'C07'], 'C05-B': ['C18'],
          'C07-A': ['C04'], 'C07-B': ['C14'], 'C10-B': ['C11'], 'C13-B': ['C03'], 'C14-A': ['C08'], 'C18-B': ['C05'], 'C09-A': [], 'C12-B': ['C06'],
          'C02-C': ['C09'], 'C02-D': ['C11'], 'C04-C': ['C07'], 'C04-D': ['C05'], 'C05-C': ['C07', 'C04'], 'C05-D': ['C04'], 'C08-C': ['C09'], 'C09-D': ['C08'],
-         'C10-C': ['C03', 'C01'], 'C10-D': ['C11'], 'C06-C': ['C08']}
+         'C10-C': ['C03', 'C01'], 'C10-D': ['C11'], 'C06-C': ['C08'],
+         'C01-C': ['C08'], 'C01-D': ['C04', 'C07'], 'C18-C': ['C04', 'C07'], 'C18-D': ['C05'], 'C07-C': ['C04'], 'C07-D': ['C14'], 'C03-C': ['C16'], 'C13-C': ['C03'], 'C14-C': ['C08'], 'C12-C': ['C06']}
 NEEDS = {}
 
 
